@@ -34,7 +34,7 @@ PROP = {'lean': 'MpsProps.C16',
                'Mps.C16.gen_taproot_verify',
                'Mps.C16.gen_taproot_public',
                'Mps.C16.gen_taproot_sign_hashes'],
- 'suites': [{'name': 'sig', 'quick': 150, 'thorough': 3000}],
+ 'suites': [{'name': 'sig', 'quick': 150, 'thorough': 3000, 'shards': 8}],
  'propfields': {'sig': ['std', 'std_ok', 'rs', 'recover', 'lows', 'kept', 'xonly', 'match', 'ver', 'std_eth']},
  'level_text': 'Proof + independent oracles: over ANY field of scalars and module of points the model of ecdsa.Signature.Verify accepts iff r,s != 0 and '
                's^-1(mG + rX) = R (ecdsa_verify_iff), textbook signatures verify, (R,s) and textbook (r,s) verification agree, (-R,-s) is valid iff (R,s) '
